@@ -24,7 +24,7 @@ def one(args):
 
 def main():
     jobs = []
-    for prop in sorted(os.listdir(os.path.join(HERE, "seeded"))):
+    for prop in sorted(x for x in os.listdir(os.path.join(HERE, "seeded")) if os.path.isdir(os.path.join(HERE, "seeded", x))):
         for n in sorted(os.listdir(os.path.join(HERE, "seeded", prop))):
             if os.path.exists(os.path.join(HERE, "seeded", prop, n, "patch.diff")):
                 jobs.append((prop, n))
